@@ -128,6 +128,7 @@ pub fn run_case(t: &Trace) -> CaseResult {
             oracles: true,
             keep_log: keep,
             collect_distinct: true,
+            lean: crate::exec::lean_mode(),
         },
     );
     absorb(&mut out, &base, t);
@@ -145,6 +146,7 @@ pub fn run_case(t: &Trace) -> CaseResult {
                     oracles: true,
                     keep_log: true,
                     collect_distinct: false,
+                    lean: crate::exec::lean_mode(),
                 },
             );
             absorb(&mut out, &rb, &tb);
@@ -213,6 +215,7 @@ pub fn run_case(t: &Trace) -> CaseResult {
                     oracles: true,
                     keep_log: false,
                     collect_distinct: false,
+                    lean: crate::exec::lean_mode(),
                 },
             );
             absorb(&mut out, &r, &tf);
